@@ -37,9 +37,7 @@ ALLOWED = [
     (C.matcher_impl(M + "empty::EmptyMatcher", "matches"), {"std::fs::read_dir"}, "-empty lists a directory only after the follow-aware type said directory", "empty"),
     (M + "printf::format_directive", {"std::fs::read_link", "std::path::Path::metadata"}, "%l and %Y: link target / followed type, only for entries that are links themselves (C16)", "printf"),
     (M + "fs::get_file_system_type", {"std::path::Path::symlink_metadata"}, "-fstype / %F device lookup (not one of the listed tests)", None),
-    (M + "time::NewerOptionMatcher::new", {"std::fs::metadata"}, "reference file of -newerXY at parse time (C15)", None),
-    (C.matcher_impl(M + "group::NoGroupMatcher", "matches"), {"std::path::Path::is_symlink"}, "-nogroup (not one of the listed tests)", None),
-    (C.matcher_impl(M + "user::NoUserMatcher", "matches"), {"std::path::Path::is_symlink"}, "-nouser (not one of the listed tests)", None),
+    ("findutils::find::device_of", {"std::path::Path::metadata"}, "-xdev: the device walkdir itself compares (stat of the path), used only to decide whether skip_current_dir has something to pop (C03)", None),
     (M + "parse_files0_args", set(), "", None),
 ]
 LISTED = {
@@ -137,8 +135,17 @@ def run(ctx):
             for b, t in f.calls():
                 if raw_name(t) in ("std::fs::read_link", "std::path::Path::metadata"):
                     gs = prim.dominating_guards(f, b)
-                    ok = any(gd["pred"].strip().k == "call" and gd["pred"].strip().a["callee"] == E + "WalkEntry::path_is_symlink" and gd["bool"] is True for gd in gs)
-                    ctx.ob("R1", "printf-link-only:%s" % prim.short(raw_name(t)), ok, "%s in -printf must be reached only for entries that are links themselves (path_is_symlink); guards %s" % (raw_name(t), prim.guards_fmt(gs)), fn=f, where=prim.site(f, b), how="dominating guard")
+                    if raw_name(t) == "std::fs::read_link":
+                        # %l: like -lname, a target only where the entry is itself a link under the follow mode
+                        def is_entry_link(pr):
+                            pr = pr.strip()
+                            return pr.k == "call" and pr.a["callee"] == E + "FileType::is_symlink" and pr.kids and pr.kids[0].strip().k == "call" and pr.kids[0].strip().a["callee"] == E + "WalkEntry::file_type"
+                        ok = any(is_entry_link(gd["pred"]) and gd["bool"] is True for gd in gs)
+                        why = "the entry's follow-aware file_type() is a link (what -lname tests; a link the follow mode resolves has no %l)"
+                    else:
+                        ok = any(gd["pred"].strip().k == "call" and gd["pred"].strip().a["callee"] == E + "WalkEntry::path_is_symlink" and gd["bool"] is True for gd in gs)
+                        why = "the path is itself a link (path_is_symlink)"
+                    ctx.ob("R1", "printf-link-only:%s" % prim.short(raw_name(t)), ok, "%s in -printf must be reached only where %s; guards %s" % (raw_name(t), why, prim.guards_fmt(gs)), fn=f, where=prim.site(f, b), how="dominating guard")
     # listed tests read through the entry
     for ty, accs in LISTED.items():
         f = ctx.fn("R1", C.matcher_impl(M + ty, "matches"))
@@ -507,8 +514,36 @@ def run(ctx):
             co = prim.origin_of_operand(pm, cs[0][1].args[0]).strip()
             ok = ok and co.k == "field" and co.a == "comparison_type"
         ctx.ob("R4", "perm-tests-record-mode", ok, "-perm must test the st_mode of the entry's record with its own comparison type", fn=pm, how="provenance slice")
+    pnew = ctx.fn("R4", M + "perm::PermMatcher::new")
+    if pnew is not None:
+        # X means x only for directories: the two stored patterns are the same operand parsed for a file and for a directory
+        got = {}
+        for b in pnew.reachable():
+            for st in pnew.blocks[b].stmts:
+                if st.rv is not None and st.rv.k == "agg" and st.rv.j.get("adt") == M + "perm::PermMatcher":
+                    for n_, op in zip(st.rv.j["fields"], st.rv.ops):
+                        if n_ in ("file_pattern", "dir_pattern"):
+                            o = prim.origin_of_operand(pnew, op)
+                            pcs = [c for c in o.call_nodes() if c.a["callee"] == M + "perm::parsing::parse_mode"]
+                            if len(pcs) == 1 and len(pcs[0].kids) == 2:
+                                fl = pcs[0].kids[1].strip()
+                                got[n_] = fl.a.get("v") if fl.k == "const" else "?"
+        ctx.ob("R4", "perm-dir-pattern-for-directories", got == {"file_pattern": False, "dir_pattern": True}, "PermMatcher::new parses its operand with for_dir = %s; oracle file_pattern: false, dir_pattern: true (symbolic `X` is `x` for directories: -perm -a+X must not match every directory)" % got, fn=pnew, how="provenance slice + constant argument")
+        # a numeric MODE is octal digits only (parse_numeric tolerates an operator and blanks)
     pmode = ctx.fn("R4", M + "perm::parsing::parse_mode")
     if pmode is not None:
+        for b, t in pmode.calls():
+            if (t.callee or "").split("::<")[0] == "uucore::mode::parse_numeric":
+                atoms = prim.norm_guards(prim.dominating_guards(pmode, b))
+                strict = any(at["rel"] == "eq" and at["a"].strip().k == "call" and at["a"].strip().a["name"] == "all" and at["b"].strip().a.get("v") is True for at in atoms if at["b"].strip().k == "const")
+                cl = [cf for cf in prog.closures_of(pmode) if any(tt.j.get("callee_name") == "is_digit" for _, tt in cf.calls())]
+                radix_ok = False
+                for cf in cl:
+                    for _, tt in cf.calls():
+                        if tt.j.get("callee_name") == "is_digit":
+                            r = prim.origin_of_operand(cf, tt.args[1]).strip()
+                            radix_ok = r.k == "const" and r.a.get("v") == 8
+                ctx.ob("R4", "numeric-mode-is-octal-digits", strict and radix_ok, "parse_numeric is reached under %s; oracle: only when every character of the operand is an octal digit (`+600`, ' 600', '- 7' are not modes)" % prim.guards_fmt([a["gd"] for a in atoms])[:200], fn=pmode, where=prim.site(pmode, b), how="dominating guard + closure")
         for b, t in pmode.calls():
             c = (t.callee or "").split("::<")[0]
             if c == "uucore::mode::parse_symbolic":
